@@ -375,7 +375,20 @@ def f_sorted(eng, s, args, kw):
     s.assume(z3.ForAll([j, k], z3.Implies(z3.And(0 <= j, j < k, k < n),
                                           z3.And(le, z3.Implies(eq, perm(j) < perm(k)))),
                        patterns=[z3.MultiPattern(z3.Select(res, j), z3.Select(res, k))]))
+    # a permutation keeps every multiplicity (what "sorted returns a permutation" means for counting; the bijection above
+    # implies it, but only by an induction no SMT solver performs)
+    from contracts.decay_model import CNT, cnt_facts
+    xx = z3.Const("so_c", Val)
+    s.assume(*cnt_facts(res, n))
+    s.assume(z3.ForAll([xx], CNT(res, n, xx) == CNT(seq.arr, n, xx), patterns=[CNT(res, n, xx)]))
     return [(out, s)]
+
+
+def f_type(eng, s, args, kw):
+    """type(x) with one argument, only ever formatted into a message here: an opaque value"""
+    if len(args) != 1 or kw:
+        raise Unsupported("type() with three arguments")
+    return [(SV(fresh("type_of", Val), None), s)]
 
 
 def f_max(eng, s, args, kw, is_max=True):
@@ -476,7 +489,7 @@ FUNCS = {
     "len": f_len, "list": f_list, "tuple": f_tuple, "set": f_set, "dict": f_dict, "str": f_str,
     "repr": f_repr, "float": f_float, "int": f_int, "bool": f_bool, "isinstance": f_isinstance,
     "enumerate": f_enumerate, "zip": f_zip, "reversed": f_reversed, "range": f_range,
-    "sorted": f_sorted, "max": f_max, "min": f_min, "sum": f_sum, "any": f_any, "all": f_all,
+    "sorted": f_sorted, "type": f_type, "max": f_max, "min": f_min, "sum": f_sum, "any": f_any, "all": f_all,
     "iter": f_iter, "next": f_next, "print": f_print, "abs": f_abs,
     "warnings.warn": f_warn, "_warnings.warn": f_warn, "super": f_super,
 }
